@@ -7,6 +7,7 @@ from common import sx, q, jq, cname, ok
 from units import U
 
 ID = 'C09'
+ZERO_LABELS = True      # a share of the cases is asked with candidates numbered from 0 (harness/common.py LABEL_MODE)
 LEVEL = 'proof'
 TIE = {'approval.QuotaSelector.evaluate': 'correspondence', 'core.get_n_best': 'correspondence', 'util.sorted_votes': 'correspondence',
        'Plurality.evaluate': 'correspondence'}
